@@ -436,3 +436,36 @@ func (c *Ctx) ObjectClassOfClassName() map[string]types.Object {
 	}
 	return out
 }
+
+// nodeAt returns the innermost call expression `panic(...)` (or any node) starting at pos.
+func (c *Ctx) nodeAt(pos token.Pos) ast.Node {
+	if !pos.IsValid() {
+		return nil
+	}
+	var found ast.Node
+	for _, p := range c.All {
+		for _, f := range p.Syntax {
+			if f.Pos() <= pos && pos < f.End() {
+				ast.Inspect(f, func(n ast.Node) bool {
+					if n == nil || pos < n.Pos() || pos >= n.End() {
+						return n != nil && !(pos < n.Pos() || pos >= n.End())
+					}
+					if call, ok := n.(*ast.CallExpr); ok {
+						if id, ok := call.Fun.(*ast.Ident); ok && id.Name == "panic" && (call.Lparen == pos || call.Pos() == pos) {
+							found = call
+						}
+					}
+					return true
+				})
+				if found != nil {
+					// return the enclosing statement
+					if st, ok := c.ParentOf(found).(*ast.ExprStmt); ok {
+						return st
+					}
+					return found
+				}
+			}
+		}
+	}
+	return nil
+}
